@@ -214,14 +214,40 @@ def perms_contained(cert: dict, issuer: dict) -> bool:
     return set(app_psids(cert)) | c_exp <= i_exp
 
 
+def _groups(cert: dict):
+    """certIssuePermissions as [(is_all, explicit psid set, minChainLength), ...] - every group, in order."""
+    out = []
+    for e in cert["toBeSigned"].get("certIssuePermissions") or []:
+        sp = e["subjectPermissions"]
+        out.append((sp[0] == "all", {x["psid"] for x in sp[1]} if sp[0] == "explicit" else set(), e.get("minChainLength", 1)))
+    return out
+
+
 def budget_allows(cert: dict, issuer: dict) -> bool:
-    """The issuer's remaining chain length allows issuing ``cert``: issuer budget >= 1 and every issuing entry of
-    the subject has a strictly smaller budget."""
-    _, _, ib = issue_perms(issuer)
-    if ib < 1:
+    """The issuer's remaining chain length allows issuing ``cert`` - judged per group, over ALL groups: every
+    application PSID needs a covering issuer group with budget >= 1; every issuing group of the subject needs, for each
+    of its PSIDs (or for 'all'), a covering issuer group with budget >= 1 and a strictly larger budget than the subject's
+    group.  PSIDs without any covering group are a containment matter (``perms_contained``), not a budget matter."""
+    gi = _groups(issuer)
+
+    def cover(psid):
+        return [g for g in gi if g[0] or psid in g[1]]
+    for psid in app_psids(cert):
+        c = cover(psid)
+        if c and not any(g[2] >= 1 for g in c):
+            return False
+    for (s_all, s_exp, s_min) in _groups(cert):
+        if s_all:
+            c = [g for g in gi if g[0]]
+            if c and not any(g[2] >= 1 and s_min <= g[2] - 1 for g in c):
+                return False
+        for psid in s_exp:
+            c = cover(psid)
+            if c and not any(g[2] >= 1 and s_min <= g[2] - 1 for g in c):
+                return False
+    if not gi:
         return False
-    ents = cert["toBeSigned"].get("certIssuePermissions") or []
-    return all(e.get("minChainLength", 1) <= ib - 1 for e in ents)
+    return True
 
 
 def validity_s(cert: dict):
